@@ -12,7 +12,7 @@ pub(super) fn stub_format(_args: core::fmt::Arguments<'_>) -> String {
 
 /// A token of 0..=2 bytes over the alphabet {a, b} (9 distinct values incl. "").
 fn any_token(len: usize) -> String {
-    let mut s = String::with_capacity(2);
+    let mut s = String::with_capacity(4);
     let mut i = 0;
     while i < len {
         s.push(if kani::any() { 'a' } else { 'b' });
@@ -66,7 +66,7 @@ fn block(cur_tag: Option<String>, cur_gen: Option<String>, upd_tag: Option<Strin
 macro_rules! cas_harness {
     ($name:ident, $ct:expr, $cg:expr, $ut:expr, $uv:expr) => {
         #[kani::proof]
-        #[kani::unwind(4)]
+        #[kani::unwind(5)]
         #[kani::stub(alloc::fmt::format, stub_format)]
         fn $name() {
             block($ct, $cg, $ut, $uv);
@@ -95,3 +95,6 @@ cas_harness!(c07_cas_token_empty, t(0), None, t(0), None);
 cas_harness!(c07_cas_version_no_generation, t(1), None, t(1), t(1));
 cas_harness!(c07_cas_version_len2, t(2), t(2), t(2), t(2));
 cas_harness!(c07_cas_version_len_mismatch, t(1), t(2), t(1), t(1));
+// thorough tier: 3-byte tokens
+cas_harness!(c07_cas_token_len3, t(3), None, t(3), None);
+cas_harness!(c07_cas_version_len3, t(3), t(3), t(3), t(3));
